@@ -185,6 +185,17 @@ def gen_C02(rng, tier):
         for ex in ["00000000", "80000000", "bf800000", "3f800000", "3f000000", "bf000000", "40000000", "40400000", "c0000000", "7f800000", "ff800000", "7fc00000"]:
             L.append("st exp S@1@%s S@2@%s" % (base, ex))
     L.append("st none f")
+    # newest-of / sum / product when EVERY present input carries an extreme timestamp (a running maximum seeded with a sentinel instead
+    # of an Option goes wrong exactly there)
+    for tx in (I64_MIN, I64_MIN + 1, I64_MAX, 0):
+        for n in (1, 2, 3):
+            for pat in itertools.product("SNE", repeat=n):
+                if "S" not in pat:
+                    continue
+                ins = " ".join(out_some(tx, rand_f(rng)) if c == "S" else ("N" if c == "N" else "E1") for c in pat)
+                L.append("st latest f %d %s" % (n, ins))
+                if "E" not in pat:
+                    L.append("st sum f %d %s" % (n, ins))
     # other payload types through the type-generic combinators
     for ty in ["b", "q"]:
         for ci in CATS_F:
@@ -756,11 +767,15 @@ def gen_C10(rng, tier):
     def signal(mm, s):
         # nonlinear signal so that rectangle != trapezoid and first != second differences
         a, b, c = rng.uniform(-3, 3), rng.uniform(-3, 3), rng.uniform(-3, 3)
-        st = {"i": 0}
+        st = {"i": 0, "last": None}
         def mk(r):
             st["i"] += 1
             x = st["i"] * 0.37
-            return q(f2h(a * x * x + b * math.sin(x) + c + r.uniform(-0.5, 0.5)), mm, s)
+            # plateaus: sometimes the reading is EXACTLY the previous one (a sensor at rest) although time has moved on
+            if st["last"] is not None and r.random() < 0.1:
+                return st["last"]
+            st["last"] = q(f2h(a * x * x + b * math.sin(x) + c + r.uniform(-0.5, 0.5)), mm, s)
+            return st["last"]
         return mk
     for name, (mm, s) in (("int", (None, None)), ("drv", (None, None)), ("a2s", (1, -2)), ("v2s", (1, -1)), ("p2s", (1, 0))):
         units = GRID if mm is None else [(mm, s)]
@@ -948,6 +963,8 @@ def mp_inputs(rng):
     v1 = rng.choice([0.0, 0.0, 0.0, sgn * vmax * rng.uniform(0, 1), rng.uniform(-1.5, 1.5) * vmax])
     a0 = rng.choice([0.0, 0.0, rng.uniform(-1, 1)])
     a1 = rng.choice([0.0, 0.0, 0.0, rng.uniform(-1, 1)])
+    if rng.random() < 0.12 and v0 != 0.0:      # exact ties between |start velocity| and |end velocity| (equal, and exactly negated)
+        v1 = rng.choice([v0, -v0])
     if rng.random() < 0.08:      # end derivatives that are non-zero but below f32::EPSILON: still the "lowest non-zero derivative"
         tiny = rng.choice([5e-8, -5e-8, 1e-10, -1e-10, 1e-39, -0.0])
         if rng.random() < 0.5:
@@ -1306,6 +1323,10 @@ def gen_devices(rng, tier, with_cmds, with_states):
                         ops.append("c:%d:%d" % (i, nt + i))
                 rounds = rng.randint(1, n_of(tier, 4, 8))
                 times = rng.sample(range(1, 10 ** 6), 4 * nt * rounds + 4)
+                if rng.random() < 0.3:      # timestamps 1..3 ns apart, far from zero (hours of uptime in ns)
+                    t = rng.choice([-1, 1]) * rng.randint(10 ** 12, 10 ** 16)
+                    base = rng.randint(1, 10 ** 6)
+                    times = [base + k for k in rng.sample(range(0, 3 * (4 * nt * rounds + 4)), 4 * nt * rounds + 4)]
                 for rd in range(rounds):
                     for i in range(nt):
                         has = (mask >> i) & 1 if rd == 0 else rng.random() < 0.5
@@ -1499,8 +1520,8 @@ def gen_C20(rng, tier):
             elif r < 0.35: evs.append("xc:" + datum_cmd(rng, t))
             elif r < 0.42: evs.append("ws:" + datum_state(rng, t))
             elif r < 0.48: evs.append("wc:" + datum_cmd(rng, t))
-            elif r < 0.54: evs.append("acc:" + rng.choice(["ok", "ok", "E4"]))
-            elif r < 0.60: evs.append("iu:" + rng.choice(["ok", "ok", "E5"]))
+            elif r < 0.54: evs.append("acc:" + rng.choice(["ok", "ok", "E4", "EN"]))
+            elif r < 0.60: evs.append("iu:" + rng.choice(["ok", "ok", "E5", "EN"]))
             elif r < 0.62: evs.append("dis")
             else: evs.append("upd")
         L.append("wr act " + " ".join(evs))
@@ -1512,8 +1533,8 @@ def gen_C20(rng, tier):
             if r < 0.35:
                 # readings with increasing, repeated and EARLIER timestamps: the wrapper must write each present reading unchanged
                 tg = rng.choice([t, t, t - rng.randint(0, 10 ** 6), 5])
-                evs.append("gs:" + rng.choice([out_some(tg, mkstate(rng)), out_some(tg, mkstate(rng)), "N", "E1", "E2"]))
-            elif r < 0.45: evs.append("iu:" + rng.choice(["ok", "ok", "E5"]))
+                evs.append("gs:" + rng.choice([out_some(tg, mkstate(rng)), out_some(tg, mkstate(rng)), "N", "E1", "E2", "EN"]))
+            elif r < 0.45: evs.append("iu:" + rng.choice(["ok", "ok", "E5", "EN"]))
             elif r < 0.52: evs.append("xs:" + datum_state(rng, t))
             elif r < 0.57: evs.append("xc:" + datum_cmd(rng, t))
             else: evs.append("upd")
@@ -1528,8 +1549,8 @@ def gen_C20(rng, tier):
             elif r < 0.42: evs.append("xc:" + datum_cmd(rng, t))
             elif r < 0.47: evs.append("ws:" + datum_state(rng, t))
             elif r < 0.50: evs.append("wc:" + datum_cmd(rng, t))
-            elif r < 0.54: evs.append("acc:" + rng.choice(["ok", "ok", "E4"]))
-            elif r < 0.58: evs.append("iu:" + rng.choice(["ok", "ok", "E5"]))
+            elif r < 0.54: evs.append("acc:" + rng.choice(["ok", "ok", "E4", "EN"]))
+            elif r < 0.58: evs.append("iu:" + rng.choice(["ok", "ok", "E5", "EN"]))
             elif r < 0.62: evs.append("lr")
             elif r < 0.63: evs.append("dis")
             else: evs.append("upd")
